@@ -142,6 +142,11 @@ def run(ctx, f, rep):
             if rk == "Ok":
                 n += 1
                 handle = pathq.mentions_call(p.ret, lambda y: short(y[1]) == "new" and "TaskHandle" in y[1])
+                if handle is None:
+                    for x in walk_expr(p.ret):
+                        if isinstance(x, tuple) and x and x[0] == "agg" and "TaskHandle" in str(x[2]):
+                            handle = x
+                            break
                 own = len(ch) == 1 and len(sp) == 1 and handle is not None and any(y == ch[0].result for y in walk_expr(handle)) and any(y == sp[0].result for y in walk_expr(handle))
                 rep.check(own, "R18.4", "R18.4|%s|own-channel-and-task" % label, "each %s bind creates its own stop channel (%d) and task (%d) and returns a handle made of exactly those" % (label, len(ch), len(sp)), g.loc())
             elif rk == "Err":
